@@ -375,8 +375,289 @@ def run_bn(E):
     E.notes["bn_capacity_bytes"] = CAPB
 
 
+# ====================================================================================== prime fields
+FPX = [(2, True), (3, False), (4, False), (6, False), (8, True), (9, False), (12, True), (16, True), (18, True),
+       (24, True), (48, True), (54, True)]
+# lengths at which fpN_read_bin expects a compressed form (handled in part "px" for the towers in use)
+FPX_PACKED_LEN = {2: lambda n: [n + 1], 12: lambda n: [8 * n], 18: lambda n: [12 * n], 24: lambda n: [16 * n],
+                  48: lambda n: [32 * n], 54: lambda n: [36 * n]}
+
+
+def set_prime_curve(R, name):
+    """activate parameter set `name`; returns ep_params()"""
+    if name in getattr(R, "TWIST_TYPE", {}):
+        return R.pairing_set(name)
+    r = R.call("ep_param_set", R.E[name])
+    if r.caught:
+        raise RuntimeError("ep_param_set(%s) failed" % name)
+    return R.ep_params()
+
+
+def fp_boundary(p, n):
+    """interesting values for an n-byte field element: (value, class)"""
+    top = (1 << (8 * n)) - 1
+    out = [(0, "zero"), (1, "small"), (2, "small"), (p - 2, "p-1"), (p - 1, "p-1"), (p, "p"), (p + 1, "p+1"), (p + 2, "p+1"),
+           ((p - 1) // 2, "half"), ((p + 1) // 2, "half"), ((1 << p.bit_length()) - 1, "2^bits-1"), (top, "all-ones"),
+           (1 << (p.bit_length() - 1), "msb"), (2 * p, "2p"), (2 * p - 1, "2p")]
+    for k in range(64, 8 * n, 64):
+        out += [((1 << k) - 1, "digit-boundary"), (1 << k, "digit-boundary")]
+    return [(v, c) for v, c in out if 0 <= v <= top]
+
+
 def run_fp(E):
-    pass
+    ctx, R, rng = E.ctx, E.R, E.rng
+    K = R.K
+    quick = ctx.quick
+    ids = [nm for nm, _ in R.ep_param_ids()]
+    E.notes["parameter_sets"] = ids
+    primes = {}
+    for name in ids:
+        set_prime_curve(R, name)
+        p, n = R.p, K["RLC_FP_BYTES"]
+        primes[name] = hx(p)
+        top = (1 << (8 * n)) - 1
+        a = R.fp_new()
+        a2 = R.fp_new()
+
+        # --------------------------------------------------------------------------- fp_read_bin
+        def fp_read(cls, bs, name=name, p=p, n=n, a=a):
+            def body(k):
+                R.fp_put_raw(a, top)                       # poison: a non-canonical pattern
+                pb = E.put(bs)
+                r = R.call("fp_read_bin", a, pb, len(bs))
+                v = int.from_bytes(bs, "big")
+                ok = len(bs) == n and v < p
+                if not ok:
+                    ctx.check(r.caught, k + "|accepted", {"len": len(bs), "v>=p": v >= p, "decoded": repr(R.fp_get(a))})
+                    return
+                if not ctx.check(not r.caught, k + "|rejected", {"err": r.err}):
+                    return
+                got, canon = R.fp_get(a)
+                ctx.check(got == v, k + "|decoded-value", {"got": hx(got), "exp": hx(v)})
+                ctx.check(canon, k + "|decoded-not-reduced", {"raw": hx(R.fp_raw(a))})
+                ctx.check(R.get(pb, len(bs)) == bs, k + "|input-modified")
+                out = E.mem(n)
+                w = R.call("fp_write_bin", out, n, a)
+                ctx.check(not w.caught and R.get(out, n) == bs, k + "|reencode", {"got": R.get(out, n).hex()})
+            E.case("fp_read_bin|%s|%s" % (name, cls), {"bytes": bs.hex()}, body)
+
+        for v, c in fp_boundary(p, n):
+            if E.mine():
+                fp_read("v=" + c, v.to_bytes(n, "big"))
+        for _ in range(ctx.n(40, 400)):
+            if E.mine():
+                fp_read("random<p", rng.randrange(p).to_bytes(n, "big"))
+            if top > p and E.mine():
+                fp_read("random>=p", rng.randrange(p, top + 1).to_bytes(n, "big"))
+            if E.mine():
+                fp_read("p-bitflip", (p ^ (1 << rng.randrange(8 * n))).to_bytes(n, "big"))
+        for ln in range(0, n + 3):
+            if ln == n:
+                continue
+            for bs in (bytes(ln), rng.getrandbits(8 * ln).to_bytes(ln, "big") if ln else b"",
+                       (rng.randrange(p).to_bytes(n, "big") + bytes(4))[:ln] if ln > n else rng.randrange(p).to_bytes(n, "big")[n - ln:]):
+                if E.mine():
+                    fp_read("len" + ("<n" if ln < n else ">n"), bs)
+        for ln in (2 * n, 2 * n + 1, 3 * n):
+            if E.mine():
+                fp_read("len>n", bytes(ln - n) + rng.randrange(p).to_bytes(n, "big"))
+
+        # -------------------------------------------------------------------------- fp_write_bin
+        def fp_write(cls, v, name=name, p=p, n=n, a=a, a2=a2):
+            def body(k):
+                R.fp_put(a, v)
+                raw = R.fp_raw(a)
+                exp = v.to_bytes(n, "big")
+                out = E.mem(n)
+                w = R.call("fp_write_bin", out, n, a)
+                if ctx.check(not w.caught, k + "|unexpected-error", {"err": w.err}):
+                    ctx.check(R.get(out, n) == exp, k + "|value", {"got": R.get(out, n).hex(), "exp": exp.hex()})
+                    R.fp_put_raw(a2, top)
+                    r = R.call("fp_read_bin", a2, out, n)
+                    ctx.check(not r.caught and R.fp_get(a2) == (v, True), k + "|roundtrip", {"got": repr(R.fp_get(a2))})
+                for ln in (0, 1, n - 1, n + 1, 2 * n):
+                    o2 = E.mem(ln)
+                    w = R.call("fp_write_bin", o2, ln, a)
+                    ctx.check(w.caught, k + "|wrong-length-accepted", {"len": ln})
+                ctx.check(R.fp_raw(a) == raw, k + "|input-modified")
+            E.case("fp_write_bin|%s|%s" % (name, cls), {"v": hx(v)}, body)
+
+        for v, c in fp_boundary(p, n):
+            if v < p and E.mine():
+                fp_write("v=" + c, v)
+        for _ in range(ctx.n(30, 300)):
+            if E.mine():
+                fp_write("random", rng.randrange(p))
+
+        # ------------------------------------------------- fp_size_str / fp_write_str / fp_read_str
+        def fp_str(cls, v, radix, name=name, p=p, n=n, a=a, a2=a2):
+            pow2 = radix in (2, 4, 8, 16, 32, 64)
+
+            def body(k):
+                R.fp_put(a, v)
+                s = codec.int_to_str(v, radix).encode()
+                need = len(s) + 1
+                r = R.call("fp_size_str", a, radix)
+                if r.caught:
+                    ctx.check(not pow2, k + "|size_str-unexpected-error", {"err": r.err})
+                else:
+                    ctx.check(r.r == need, k + "|size_str", {"got": r.r, "exp": need})
+                out = E.mem(need)
+                w = R.call("fp_write_str", out, need, a, radix)
+                if w.caught:
+                    ctx.check(not pow2, k + "|unexpected-error", {"err": w.err})
+                else:
+                    ctx.check(R.get(out, need) == s + b"\x00", k + "|value", {"got": R.get(out, need).hex(), "exp": s.decode()})
+                o2 = E.mem(need - 1)
+                w = R.call("fp_write_str", o2, need - 1, a, radix)
+                ctx.check(w.caught, k + "|short-buffer-accepted", {"len": need - 1})
+                R.fp_put_raw(a2, top)
+                ps = E.put(s)
+                rr = R.call("fp_read_str", a2, ps, len(s), radix)
+                if rr.caught:
+                    ctx.check(not pow2, k + "|read-unexpected-error", {"err": rr.err})
+                else:
+                    ctx.check(R.fp_get(a2) == (v, True), k + "|roundtrip", {"got": repr(R.fp_get(a2)), "exp": hx(v)})
+            E.case("fp_str|%s|%s" % ("pow2-radix" if pow2 else "other-radix", cls), {"v": hx(v), "radix": radix, "set": name}, body)
+
+        for radix in range(2, 65):
+            vs = [(0, "zero"), (1, "small"), (radix - 1, "small"), (radix, "radix-power"), (p - 1, "p-1"),
+                  (rng.randrange(p), "random"), (radix ** rng.randrange(2, 30), "radix-power"),
+                  (radix ** rng.randrange(2, 30) - 1, "radix-power-1"), (rng.getrandbits(64), "one-digit")]
+            for v, c in vs:
+                if v < p and E.mine():
+                    fp_str(c, v, radix)
+
+        def fp_str_hostile(cls, txt, radix, name=name, p=p, a2=a2):
+            def body(k):
+                R.fp_put_raw(a2, top)
+                ps = E.put(txt)
+                rr = R.call("fp_read_str", a2, ps, len(txt), radix)
+                if rr.caught:
+                    ctx.check(True)
+                    return
+                exp = codec.str_prefix_value(txt, radix)[0] % p
+                ctx.check(R.fp_get(a2) == (exp, True), k + "|value", {"got": repr(R.fp_get(a2)), "exp": hx(exp)})
+            E.case("fp_read_str|%s" % cls, {"str": txt[:100].hex(), "radix": radix, "set": name}, body)
+
+        for radix in (2, 4, 8, 16, 32, 64, 10, 36):
+            if not E.mine():
+                continue
+            for v, c in ((p, "v=p"), (p + 1, "v=p+1"), (2 * p + 5, "v>p"), (-1, "negative"), (-(1 << 64) - 7, "negative-multi-digit"),
+                         (-p, "negative")):
+                fp_str_hostile(c, codec.int_to_str(v, radix).encode(), radix)
+            fp_str_hostile("invalid-char", codec.int_to_str(rng.randrange(p), radix).encode()[:10] + b"!" + b"11", radix)
+        for radix in (0, 1, 65, 100, 256):
+            if not E.mine():
+                continue
+
+            def body(k, radix=radix, a=a, a2=a2):
+                R.fp_put(a, 5)
+                r = R.call("fp_size_str", a, radix)
+                ctx.check(r.caught, k + "|size_str-accepted", {"ret": r.r})
+                out = E.mem(300)
+                r = R.call("fp_write_str", out, 300, a, radix)
+                ctx.check(r.caught, k + "|write_str-accepted")
+                ps = E.put(b"101")
+                r = R.call("fp_read_str", a2, ps, 3, radix)
+                ctx.check(r.caught, k + "|read_str-accepted")
+            E.case("fp_str|invalid-radix", {"radix": radix, "set": name}, body)
+
+        # ---------------------------------------------------------- extension fields, unpacked form
+        for deg, haspack in FPX:
+            pre = "fp%d" % deg
+            if not R.has(pre + "_read_bin"):
+                E.notes.setdefault("functions_not_built", []).append(pre + "_read_bin")
+                continue
+            x = R.fpx_new(deg)
+            y = R.fpx_new(deg)
+            full = deg * n
+            packed_lens = FPX_PACKED_LEN.get(deg, lambda n_: [])(n)
+
+            def wr_args(buf, ln, obj):
+                return [buf, ln, obj] + ([0] if haspack else [])
+
+            def fpx_read(cls, bs, deg=deg, pre=pre, x=x, full=full, name=name, p=p, n=n, wr_args=wr_args):
+                def body(k):
+                    for i in range(deg):
+                        R.fp_put_raw(x + i * R.fp_sz, top)
+                    pb = E.put(bs)
+                    r = R.call(pre + "_read_bin", x, pb, len(bs))
+                    cs = [int.from_bytes(bs[i * n:(i + 1) * n], "big") for i in range(deg)] if len(bs) == full else None
+                    ok = cs is not None and all(c < p for c in cs)
+                    if not ok:
+                        ctx.check(r.caught, k + "|accepted", {"len": len(bs)})
+                        return
+                    if not ctx.check(not r.caught, k + "|rejected", {"err": r.err}):
+                        return
+                    got, canon = R.fpx_get(x, deg)
+                    ctx.check(got == cs, k + "|decoded-value", {"got": [hx(g) for g in got]})
+                    ctx.check(canon, k + "|decoded-not-reduced")
+                    out = E.mem(full)
+                    w = R.call(pre + "_write_bin", *wr_args(out, full, x))
+                    ctx.check(not w.caught and R.get(out, full) == bs, k + "|reencode")
+                E.case("%s_read_bin|%s" % (pre, cls), {"bytes": bs[:96].hex(), "len": len(bs), "set": name}, body)
+
+            def elem(special=None, pos=None):
+                cs = [rng.randrange(p) for _ in range(deg)]
+                if special is not None:
+                    cs[pos] = special
+                return b"".join(c.to_bytes(n, "big") for c in cs)
+
+            reps = 3 if quick else 12
+            for _ in range(reps):
+                if E.mine():
+                    fpx_read("valid", elem())
+            positions = range(deg) if (deg <= 12 or not quick) else sorted(set([0, 1, deg // 2, deg - 2, deg - 1]))
+            for pos in positions:
+                for v, c in ((p - 1, "coef=p-1"), (0, "coef=0"), (p, "coef=p"), (p + 1, "coef=p+1"), (top, "coef=all-ones")):
+                    if v <= top and E.mine():
+                        fpx_read(c, elem(v, pos))
+            for ln in sorted(set([0, 1, n - 1, n, full - n, full - 1, full + 1, full + n, 2 * full])):
+                if ln == full or ln in packed_lens or ln < 0:
+                    continue
+                if E.mine():
+                    fpx_read("len", (elem() + elem())[:ln])
+
+            def fpx_write(cls, cs, deg=deg, pre=pre, x=x, y=y, full=full, name=name, p=p, n=n, wr_args=wr_args, haspack=haspack):
+                def body(k):
+                    R.fpx_put(x, cs)
+                    snap = R.get(x, deg * R.fp_sz)
+                    exp = b"".join(c.to_bytes(n, "big") for c in cs)
+                    r = R.call(pre + "_size_bin", *([x] + ([0] if haspack else [])))
+                    ctx.check(not r.caught and r.i == full, k + "|size_bin", {"got": r.i, "exp": full})
+                    out = E.mem(full)
+                    w = R.call(pre + "_write_bin", *wr_args(out, full, x))
+                    if ctx.check(not w.caught, k + "|unexpected-error", {"err": w.err}):
+                        ctx.check(R.get(out, full) == exp, k + "|value", {"got": R.get(out, full)[:96].hex()})
+                        rr = R.call(pre + "_read_bin", y, out, full)
+                        ctx.check(not rr.caught and R.fpx_get(y, deg) == (cs, True), k + "|roundtrip")
+                    for ln in (0, full - n, full - 1):
+                        if ln in FPX_PACKED_LEN.get(deg, lambda n_: [])(n):
+                            continue
+                        o2 = E.mem(ln)
+                        w = R.call(pre + "_write_bin", *wr_args(o2, ln, x))
+                        ctx.check(w.caught, k + "|short-buffer-accepted", {"len": ln})
+                    ln = full + rng.randrange(1, 9)
+                    o3 = E.mem(ln)
+                    w = R.call(pre + "_write_bin", *wr_args(o3, ln, x))
+                    ctx.check(w.caught or R.get(o3, full) == exp, k + "|long-buffer", {"len": ln})
+                    ctx.check(R.get(x, deg * R.fp_sz) == snap, k + "|input-modified")
+                E.case("%s_write_bin|%s" % (pre, cls), {"coeffs": [hx(c) for c in cs[:4]], "deg": deg, "set": name}, body)
+
+            for _ in range(reps):
+                if E.mine():
+                    fpx_write("random", [rng.randrange(p) for _ in range(deg)])
+            for cs, c in (([0] * deg, "zero"), ([1] + [0] * (deg - 1), "one"), ([p - 1] * deg, "all-p-1"),
+                          ([0] * (deg - 1) + [1], "last-coef")):
+                if E.mine():
+                    fpx_write(c, cs)
+            R.free(x)
+            R.free(y)
+        R.free(a)
+        R.free(a2)
+    E.notes["primes"] = primes
+
 
 
 def run_ep(E):
